@@ -47,6 +47,7 @@ pub struct Case {
 }
 
 fn run_len(t: &mut Tape, n: usize, allow_big: bool) -> usize {
+    let n = n.min(64); // ("unlimited" buffer sizes: runs are sized as for 64)
     let big = if allow_big { 1 } else { 0 };
     match t.weighted(&[4, 10, 4, big]) {
         0 => 0,
@@ -272,17 +273,17 @@ fn lag_violation(case_lines: &[(K, usize, Option<usize>)], k: usize, n: usize, p
     if final_paths.contains(&sec) && !paths_present.contains(&sec) {
         return Some(("file-header-not-written".to_string(), format!("after {} input lines the input is inside a hunk of section {} but that section's file header has not been written", k, sec), vec![]));
     }
-    if absent_in_run > n + 1 {
+    if absent_in_run > n.saturating_add(1) {
         let mut traits = Vec::new();
         if minus_absent > 0 && plus_absent > 0 {
             traits.push("both-sides-pending".to_string());
         }
-        if absent_in_run <= 2 * n + 1 && minus_absent <= n && plus_absent <= n + 1 {
+        if absent_in_run <= n.saturating_mul(2).saturating_add(1) && minus_absent <= n && plus_absent <= n.saturating_add(1) {
             traits.push("within-n-removed-plus-n-plus-1-added".to_string());
         }
         return Some((
             "lag-exceeds-n-plus-1".to_string(),
-            format!("after {} input lines, {} lines of the open run are held back ({} removed, {} added); line-buffer-size is {} so at most {} may be", k, absent_in_run, minus_absent, plus_absent, n, n + 1),
+            format!("after {} input lines, {} lines of the open run are held back ({} removed, {} added); line-buffer-size is {} so at most {} may be", k, absent_in_run, minus_absent, plus_absent, n, n.saturating_add(1)),
             traits,
         ));
     }
@@ -312,6 +313,10 @@ fn build_cfg(t: &mut Tape) -> (Cfg, usize) {
         cfg.set("width", "300");
     }
     let n = *t.pick(&[32usize, 0, 1, 2, 3, 5, 8]);
+    // "unlimited": the largest values the option accepts (the bound N+1 then allows any lag, but the
+    // stream must still be rendered, line by line as far as the bound demands, and never revised)
+    let mut big = t.fork(9);
+    let n = if big.chance(1, 12) { *big.pick(&[usize::MAX, usize::MAX - 1, 1usize << 62, 1usize << 40, 1_000_000_000_000]) } else { n };
     cfg.set("line-buffer-size", &n.to_string());
     (cfg, n)
 }
@@ -459,12 +464,12 @@ impl Prop for C11 {
         }
         let hunks = case.lines.iter().filter(|l| l.kind == K::HunkHeader).count();
         ctx.class_if(cfg.has("side-by-side"), "side-by-side");
-        ctx.class_if(longest > n + 1, "run-longer-than-buffer");
+        ctx.class_if(longest > n.saturating_add(1), "run-longer-than-buffer");
         ctx.class_if(longest >= 40, "run-of-40-or-more");
         ctx.class_if(max_pending > 0, "some-lines-pending-at-some-prefix");
         ctx.class(&format!("N={}", n));
         let _ = case.n_sections;
-        if longest > n + 1 && hunks >= 2 {
+        if longest > n.saturating_add(1) && hunks >= 2 {
             let mut h = fnv(&input);
             h = fnv_add(h, &cfg.fingerprint().to_le_bytes());
             ctx.nontrivial(h);
@@ -895,13 +900,38 @@ fn launched_probe(delta: &std::path::Path, home: &std::path::Path, x: &Value, no
         let fl = libc::fcntl(fd, libc::F_GETFL);
         libc::fcntl(fd, libc::F_SETFL, fl | libc::O_NONBLOCK);
     }
-    // (opening the FIFO for writing blocks until the stub has opened it for reading)
-    let mut w = match std::fs::OpenOptions::new().write(true).open(&fifo) {
-        Ok(w) => w,
-        Err(e) => {
-            let _ = child.kill();
-            let _ = child.wait();
-            return Err(format!("cannot open the fifo: {}", e));
+    // (the FIFO can be opened for writing once the stand-in command has opened it for reading; a
+    // delta that ends before it ever starts the command must not leave the probe waiting)
+    use std::os::unix::fs::OpenOptionsExt;
+    let t_open = Instant::now();
+    let mut w = loop {
+        match std::fs::OpenOptions::new().write(true).custom_flags(libc::O_NONBLOCK).open(&fifo) {
+            Ok(w) => {
+                unsafe {
+                    let fl = libc::fcntl(w.as_raw_fd(), libc::F_GETFL);
+                    libc::fcntl(w.as_raw_fd(), libc::F_SETFL, fl & !libc::O_NONBLOCK);
+                }
+                break w;
+            }
+            Err(e) => {
+                let ended = matches!(child.try_wait(), Ok(Some(_)));
+                if ended || t_open.elapsed() > Duration::from_secs(20) {
+                    let st = child.try_wait().ok().flatten();
+                    let _ = child.kill();
+                    let _ = child.wait();
+                    let mut out: Vec<u8> = Vec::new();
+                    drain(&mut stdout, &mut out);
+                    let _ = std::fs::remove_dir_all(&dir);
+                    if let Some(st) = st {
+                        if !st.success() {
+                            let case = json!({"argv": args, "launched": ["git", "diff"], "lines_sent_before_the_pause": 0, "lines": lines, "meta": x["meta"], "mode": "launched"});
+                            return Ok(Some(Some((Failure::new("C11:launched:ended-before-reading", format!("`delta ... git diff` ended with {:?} before its command had produced anything", st)), case))));
+                        }
+                    }
+                    return Err(format!("cannot open the fifo: {} (delta ended: {:?}) argv {:?}", e, st, args));
+                }
+                std::thread::sleep(Duration::from_millis(5));
+            }
         }
     };
     let part1: String = lines[..cut].iter().map(|l| format!("{}\n", l)).collect();
